@@ -392,3 +392,105 @@ def run_snapshot(prog):
                  "removal that still has to reach the OS is not noticed and kanata blocks as idle with the key down"
                  % ([m[0] for m in muts[:4]] or "the key read no longer precedes it;"))
     return res
+
+
+def run_idle_counter(prog):
+    """R-IDLE-COUNTER (C15, C18): whoever waits for `ticks_since_idle` to reach a value also makes it count.
+
+    `ticks_since_idle` only advances in can_block_update_idle_waiting, and only while some consumer is waiting for it
+    (otherwise the loop blocks and nothing counts). The consumers are the places that compare the counter with a
+    threshold: the on-idle virtual-key actions (guarded by `waiting_for_idle`) and the one-idle-second fallback of a
+    requested live reload (guarded by `live_reload_requested`). If a consumer's own "I am waiting" field does not take
+    part in the condition under which the counter is incremented, its threshold is never reached: with a stuck key
+    the requested reload is never applied.
+
+    Rule: the consumers' guard fields are discovered from the comparisons of ticks_since_idle (the Kanata fields in the
+    dependence slice - control and data - of the comparison); each must be in the dependence slice of the increment."""
+    from kq.analysis import dependence_slice
+    from kq.core import proj_fields, rvalue_operands
+    res = RuleResult("R-IDLE-COUNTER", "the idle counter counts whenever one of its consumers is waiting", floor=2)
+    KAN = "kanata_state_machine::kanata::Kanata"
+    g = prog.fn_opt(K + "can_block_update_idle_waiting")
+    if g is None:
+        res.viol("anchor", "src/kanata/mod.rs", "can_block_update_idle_waiting not found")
+        return res
+    res.fn(g)
+    inc = None
+    for bi in g.reachable():
+        t = g.term(bi)
+        # k.ticks_since_idle = k.ticks_since_idle.saturating_add(..)
+        if t["k"] == "call" and (callee_name(t) or "").split("::")[-1] in ("saturating_add", "wrapping_add", "checked_add") and proj(t["dest"]):
+            pf = proj_fields(t["dest"])
+            if pf and pf[-1][2] == "ticks_since_idle":
+                inc = bi
+        for si, st in enumerate(g.stmts(bi)):
+            if st["k"] != "assign" or not proj(st["p"]):
+                continue
+            pf = proj_fields(st["p"])
+            if not pf or pf[-1][2] != "ticks_since_idle":
+                continue
+            rv = st["rv"]
+            if rv["k"] in ("bin", "checked") and rv.get("op") == "Add":
+                inc = bi
+            elif rv["k"] == "use" and is_place(rv["a"]) and not proj(rv["a"]):
+                d = g.single_def(rv["a"]["l"])
+                if d is not None and d[2] == "call" and (callee_name(d[3]) or "").split("::")[-1] in ("saturating_add", "wrapping_add", "checked_add"):
+                    inc = bi
+    if inc is None:
+        res.viol("anchor/increment", g.loc, "the increment of ticks_since_idle was not found in can_block_update_idle_waiting")
+        return res
+    inc_fields = {f_ for (a, f_) in dependence_slice(g, inc)[0] if a == KAN}
+    res.inst("increment", where="%s:%s" % (g.file, g.line_of(inc)), depends_on=sorted(inc_fields), ok=True)
+    # consumers: comparisons of ticks_since_idle with something, outside the counting function
+    consumers = []
+    for f in prog.fns.values():
+        if f.crate != "kanata_state_machine" or f.derive or f is g:
+            continue
+        for bi, si, st in f.all_rvalues():
+            rv = st["rv"]
+            if rv["k"] == "ref" and not rv.get("mut") and proj(rv["p"]):
+                # captured by a closure that compares it (tick_idle_timeout's retain closure)
+                pf = proj_fields(rv["p"])
+                if pf and pf[-1][2] == "ticks_since_idle" and pf[-1][0] == KAN:
+                    consumers.append((f, bi, si))
+                continue
+            if rv["k"] != "bin" or rv.get("op") not in ("Gt", "Ge", "Lt", "Le"):
+                continue
+            ops = rvalue_operands(rv)
+            reads = False
+            for o in ops:
+                fl, _c, _k = backward_slice_fields(f, o)
+                if (KAN, "ticks_since_idle") in fl:
+                    reads = True
+            if not reads:
+                continue
+            consumers.append((f, bi, si))
+    if len(consumers) < 2:
+        res.viol("anchor/consumers", "src/kanata/mod.rs", "the comparisons of ticks_since_idle (on-idle actions, reload fallback) were not found (%d)" % len(consumers))
+        return res
+    GUARDS = ("waiting_for_idle", "live_reload_requested")
+    for f, bi, si in consumers:
+        res.fn(f)
+        dep = {f_ for (a, f_) in dependence_slice(f, bi)[0] if a == KAN}
+        guards = sorted(x for x in dep if x in GUARDS)
+        missing = [x for x in guards if x not in inc_fields]
+        key = "consumer/%s" % f.norm.split("::")[-1]
+        ok = bool(guards) and not missing
+        res.inst(key, where="%s:%s" % (f.file, f.line_of(bi, si)), waits_under=guards, counted=not missing, ok=ok)
+        res.oblige(ok)
+        if not guards:
+            res.viol(key + "/guard", "%s:%s" % (f.file, f.line_of(bi, si)),
+                     "%s compares ticks_since_idle with a threshold, but none of the known waiting fields %s decides whether it does: "
+                     "the rule cannot tell what makes the counter advance for this consumer" % (f.norm.split("::")[-1], list(GUARDS)))
+        elif missing:
+            res.viol(key, "%s:%s" % (f.file, f.line_of(bi, si)),
+                     "%s waits for ticks_since_idle to pass a threshold while `%s` is set, but `%s` takes no part in the condition under "
+                     "which can_block_update_idle_waiting increments the counter (it depends on %s): the counter stays at 0 for this "
+                     "consumer and the threshold is never reached - e.g. a requested live reload is never applied while a key is "
+                     "stuck down" % (f.norm.split("::")[-1], missing[0], missing[0], sorted(inc_fields)))
+    return res
+
+
+def backward_slice_fields(f, o):
+    from kq.analysis import backward_slice
+    return backward_slice(f, o, maxdepth=12)
